@@ -49,6 +49,9 @@ def plan(tier):
     # files whose array chunks hold fewer items than today's length (written by older SunVox versions): two loads of one
     # such file, a module constructed before and one constructed after share nothing
     descs.append({"kind": "short_arrays"})
+    # many loaded / cloned containers stay alive while garbage is collected and many new, unrelated objects are built and
+    # edited (identity of dead temporaries re-used by new objects)
+    descs.append({"kind": "gc_reuse"})
     descs.append({"kind": "copies", "types": ["SpectraVoice", "MultiSynth", "MultiCtl", "WaveShaper", "Fmx", "Generator", "AnalogGenerator", "Sampler", "MetaModule", "VorbisPlayer"], "examples": 6 if tier == "quick" else 60, "max_mut": 4})
     return descs
 
@@ -379,6 +382,56 @@ def run_short_array(tname, attr, chnm, length, esize, cut):
     return True
 
 
+def run_gc_reuse(ctx):
+    import gc
+
+    from rv.api import Project, Synth, m
+
+    base = m.MetaModule()
+    base.project.new_module(m.Amplifier)
+    base.project.new_module(m.Generator)
+    # (the library matches an embedded controller that changes by its number, counted from 1)
+    base.mappings.values[0] = base.Mapping((1, 1))
+    base.user_defined_controllers = 1
+    data = Synth(base).read()
+    smp = build.make_module(build.big_payload_module_specs()[0]) if build.big_payload_module_specs()[0]["type"] == "Sampler" else m.Sampler()
+    sdata = Synth(smp).read()
+    keep = []
+    for i in range(160):
+        keep.append(load(data).module if i % 3 else base.clone())
+        if i % 40 == 0:
+            keep.append(load(sdata).module)
+    before = [(Synth(x).read(), snapshot.snap_module(x, in_project=False)) for x in keep]
+    rec = {"gc_reuse": len(keep)}
+    for rnd in range(3):
+        gc.collect()
+        fresh = []
+        for i in range(2500):
+            ctx.case()
+            p = Project()
+            a = p.new_module(m.Amplifier)
+            g = p.new_module(m.Generator)
+            a.volume = 1 + (i * 7) % 100
+            a.balance = (i * 5) % 100 - 50
+            g.volume = 1 + (i * 3) % 250
+            a >> g >> p.output
+            if i % 50 == 0:
+                mm = p.new_module(m.MetaModule)
+                mm.project.new_module(m.Amplifier).volume = 5
+            if rnd != 1 or i % 2:
+                fresh.append(p)  # the new objects stay alive for the round (in the second round: every other one)
+        for k, x in enumerate(keep):
+            now = (Synth(x).read(), snapshot.snap_module(x, in_project=False))
+            if now[1] != before[k][1] or now[0] != before[k][0]:
+                d = snapshot.diff(before[k][1], now[1])[:3]
+                ctx.check(False, "C17.leak.unrelated_new_objects", "building and editing new, unrelated projects changed a live %s loaded earlier (#%d of %d kept alive, round %d): %r" % (type(x).__name__, k, len(keep), rnd, d or "saved bytes differ"), key="C17.leak:gc_reuse", recipe={"case": rec})
+                return
+        del fresh
+    ctx.mark_nontrivial(rec)
+    ctx.label("unrelated_objects_built_after_garbage_collection")
+    ctx.sample(rec)
+
+
 def run_short_arrays(ctx):
     for tname in build.attachable_types():
         for attr, chnm, length, esize in int_arrays_of(tname):
@@ -408,6 +461,9 @@ def run_shard(ctx, desc):
     if desc["kind"] == "short_arrays":
         run_short_arrays(ctx)
         return
+    if desc["kind"] == "gc_reuse":
+        run_gc_reuse(ctx)
+        return
 
     def body(case):
         ctx.case()
@@ -434,6 +490,14 @@ def run_shard(ctx, desc):
 
 
 def replay(ctx, doc):
+    if "gc_reuse" in doc["recipe"]["case"]:
+        from vlib.harness import Ctx
+
+        c2 = Ctx(ctx.prop, ctx.tier, ctx.seed, 0, 1, [])
+        run_gc_reuse(c2)
+        if c2.failures:
+            raise PropertyViolation(c2.failures[0]["sub_oracle"], c2.failures[0]["detail"], c2.failures[0]["key"])
+        return
     if "short_array" in doc["recipe"]["case"]:
         run_short_array(*doc["recipe"]["case"]["short_array"])
         return
